@@ -59,6 +59,9 @@ CHECKS = {
     "C18": dict(engine="dsched", technique="property-based testing: Hypothesis-generated update sequences on cds_list/cds_hlist (mutually excluded updaters) concurrent with _rcu-iterator traversals in read-side sections, schedules that preempt between the individual plain pointer stores of each primitive; interval oracle from the update log (resident nodes visited once, in list order, nothing impossible, replacement atomic), payload-initialisation and shadow-heap oracles",
                 text="The static-inline list primitives are instrumented in the scenario so every plain pointer store is a scheduling point; each traversal is judged against the updater's logged call/return steps. Exploration over update sequences and schedules.",
                 ref="DESIGN.md §6 C18"),
+    "C13": dict(engine="dsched", technique="property-based testing: Hypothesis-generated defer_rcu programs (function/argument bit patterns incl. marker, low-bit and odd-address values; queue size 8 via hook so the ring wraps and flushes; barriers, background reclaimer, re-registration, readers) + schedules + futex faults on a controlled-concurrency engine; per-thread FIFO/exact-argument oracle, grace-period oracle, barrier-completeness and termination oracles",
+                text="Every invocation is matched against the next queued (function, argument) pair of its thread; sections open at defer_rcu() must have ended; barrier/unregister completeness; reclaimer-only progress; re-registration. Exploration over inputs (bit patterns, sequence lengths relative to the ring) and schedules.",
+                ref="DESIGN.md §6 C13, §10"),
 }
 NOT_YET = "check not built yet in this session (planned: see DESIGN.md §6)"
 
